@@ -874,6 +874,13 @@ def known_findings(kf, violations, repo, tier):
     out = []
     vio_ids = {v["id"] for v in violations}
     for f in kf:
+        if f.get("replay") == "obligation":
+            # the finding's witness replay IS the native replay of its obligation (same amplifier), which this run has already made:
+            # the finding still fails exactly when that replay reproduced (the obligation is among the violations)
+            still = f["obligation"] in vio_ids
+            out.append({"finding": f["id"], "still_fails": still, "line": f"{f['id']}: {f['what']}", "covers": [f["obligation"]] if still else [],
+                        "witness_replay": "see the replay of the obligation"})
+            continue
         req = {"property": "C12", "obligation": f["obligation"], "known_finding": f["id"], "witness": f.get("witness"), "repo": repo}
         try:
             p = subprocess.run(["/venv/bin/python", os.path.join(os.path.dirname(os.path.dirname(os.path.abspath(__file__))), "replay", "run.py")],
